@@ -294,6 +294,209 @@ OR_NESTED_CASES = [
 ]
 
 
+# ---- precedence of the two optional operators, written WITHOUT parentheses next to every class of binary operator (fixed
+# cases, the same for every seed).  The grammar (compiler/src/grammar.pest) and the operator table (PRATT_PARSER in
+# compiler/src/ast/math_expr.rs) say:
+#   * `x or y` is a POSTFIX of the atom x and binds tighter than every prefix and binary operator; its fallback y is a whole
+#     `value`, i.e. everything that follows:   a + x or y * 2  ==  a + ((x) or (y * 2)),   -x or y == -((x) or y)
+#   * `get` is a PREFIX that binds looser than every binary operator except `?=` and `is`: its operand is everything up to the
+#     end of the expression:   get a == b  ==  get (a == b),   1 + get a * 2  ==  1 + get (a * 2)
+# so the operand tested for nil by `or` is x alone, and the operand of `get` is the whole comparison / sum.  The expected
+# value of every expression is written down here as a Python function of the optional's content (None = nil).
+def _d(x, y):
+    return y if x is None else x
+
+
+def _tdiv(a, b):
+    q = abs(a) // abs(b)
+    return q if (a < 0) == (b < 0) else -q
+
+
+# (id, type of the optional, result type, expression with {X} = the optional operand, value as a function of its content)
+OR_PRECEDENCE = [
+    ("add", "int", "int", "100 + {X} or 3", lambda x: 100 + _d(x, 3)),
+    ("sub", "int", "int", "100 - {X} or 3", lambda x: 100 - _d(x, 3)),
+    ("mul", "int", "int", "2 * {X} or 3", lambda x: 2 * _d(x, 3)),
+    ("div", "int", "int", "100 / {X} or 3", lambda x: _tdiv(100, _d(x, 3))),
+    ("rem", "int", "int", "100 % {X} or 3", lambda x: 100 - _tdiv(100, _d(x, 3)) * _d(x, 3)),
+    ("shl", "int", "int", "1 << {X} or 3", lambda x: 1 << _d(x, 3)),
+    ("shr", "int", "int", "4096 >> {X} or 3", lambda x: 4096 >> _d(x, 3)),
+    ("bit-and", "int", "int", "6 & {X} or 3", lambda x: 6 & _d(x, 3)),
+    ("bit-or", "int", "int", "8 | {X} or 3", lambda x: 8 | _d(x, 3)),
+    ("bit-xor", "int", "int", "6 xor {X} or 3", lambda x: 6 ^ _d(x, 3)),
+    ("lt", "int", "bool", "5 < {X} or 3", lambda x: 5 < _d(x, 3)),
+    ("le", "int", "bool", "7 <= {X} or 3", lambda x: 7 <= _d(x, 3)),
+    ("gt", "int", "bool", "5 > {X} or 3", lambda x: 5 > _d(x, 3)),
+    ("ge", "int", "bool", "3 >= {X} or 3", lambda x: 3 >= _d(x, 3)),
+    ("eq", "int", "bool", "3 == {X} or 3", lambda x: 3 == _d(x, 3)),
+    ("ne", "int", "bool", "3 != {X} or 3", lambda x: 3 != _d(x, 3)),
+    ("and", "bool", "bool", "true && {X} or false", lambda x: True and _d(x, False)),
+    ("or-logical", "bool", "bool", "false || {X} or false", lambda x: False or _d(x, False)),
+    ("xor-logical", "bool", "bool", "true ^ {X} or false", lambda x: True != _d(x, False)),
+    ("not", "bool", "bool", "!{X} or false", lambda x: not _d(x, False)),
+    ("neg", "int", "int", "-{X} or 3", lambda x: -_d(x, 3)),
+    ("get", "int", "int", "get {X} or 3", lambda x: _d(x, 3)),
+    ("concat", "str", "str", "\"name=\" + {X} or \"anonymous\"", lambda x: "name=" + _d(x, "anonymous")),
+    ("concat-number-left", "str", "str", "7 + {X} or \"anonymous\"", lambda x: "7" + _d(x, "anonymous")),
+    ("repeat", "int", "str", "\"ab\" * {X} or 3", lambda x: "ab" * _d(x, 3)),
+    ("str-eq", "str", "bool", "\"ab\" == {X} or \"cd\"", lambda x: "ab" == _d(x, "cd")),
+    # the fallback is everything that follows
+    ("fallback-extends-mul", "int", "int", "100 - {X} or 3 * 2", lambda x: 100 - _d(x, 6)),
+    ("fallback-extends-add", "int", "int", "{X} or 3 + 1", lambda x: _d(x, 4)),
+    ("fallback-extends-both-sides", "int", "int", "2 * {X} or 3 + 1", lambda x: 2 * _d(x, 4)),
+    ("fallback-extends-and", "bool", "bool", "{X} or true && false", lambda x: _d(x, False)),
+    ("fallback-extends-concat", "str", "str", "\"<\" + {X} or \"anon\" + \">\"", lambda x: "<" + _d(x, "anon>")),
+    # two operators before the primary, a second `or` in the fallback
+    ("two-operators-before", "int", "int", "1 + 2 * {X} or 3", lambda x: 1 + 2 * _d(x, 3)),
+    ("comparison-of-sum", "int", "bool", "10 == 3 + {X} or 4", lambda x: 10 == 3 + _d(x, 4)),
+    ("or-chain", "int", "int", "1 + {X} or {X} or 5", lambda x: 1 + _d(x, 5)),
+    ("logical-of-comparison", "int", "bool", "true && 5 < {X} or 3", lambda x: 5 < _d(x, 3)),
+]
+OR_COMPOUND = [("+=", lambda v, y: v + y), ("-=", lambda v, y: v - y), ("*=", lambda v, y: v * y), ("/=", _tdiv), ("%=", lambda v, y: v - _tdiv(v, y) * y)]
+
+NEVER = "never"       # marks an expression that has no value when the optional is nil (not generated with nil)
+GET_PRECEDENCE = [
+    ("add", "int", "int", "get {X} + 1", lambda x: NEVER if x is None else x + 1),
+    ("sub-mul", "int", "int", "get {X} - 1 * 2", lambda x: NEVER if x is None else x - 2),
+    ("mul", "int", "int", "get {X} * 2", lambda x: NEVER if x is None else x * 2),
+    ("div", "int", "int", "get {X} / 2", lambda x: NEVER if x is None else _tdiv(x, 2)),
+    ("rem", "int", "int", "get {X} % 4", lambda x: NEVER if x is None else x - _tdiv(x, 4) * 4),
+    ("shl", "int", "int", "get {X} << 1", lambda x: NEVER if x is None else x << 1),
+    ("shr", "int", "int", "get {X} >> 1", lambda x: NEVER if x is None else x >> 1),
+    ("bit-and", "int", "int", "get {X} & 3", lambda x: NEVER if x is None else x & 3),
+    ("bit-or", "int", "int", "get {X} | 8", lambda x: NEVER if x is None else x | 8),
+    ("bit-xor", "int", "int", "get {X} xor 2", lambda x: NEVER if x is None else x ^ 2),
+    ("lt", "int", "bool", "get {X} < 9", lambda x: NEVER if x is None else x < 9),
+    ("ge", "int", "bool", "get {X} >= 8", lambda x: NEVER if x is None else x >= 8),
+    ("and", "bool", "bool", "get {X} && false", lambda x: NEVER if x is None else (x and False)),
+    ("or-logical", "bool", "bool", "get {X} || false", lambda x: NEVER if x is None else (x or False)),
+    ("concat", "str", "str", "get {X} + \"!\"", lambda x: NEVER if x is None else x + "!"),
+    ("repeat", "str", "str", "get {X} * 2", lambda x: NEVER if x is None else x * 2),
+    # comparisons for equality have a value whatever the optional holds: nil equals nil only
+    ("eq", "int", "bool", "get {X} == 3", lambda x: x == 3),
+    ("eq-held", "int", "bool", "get {X} == 7", lambda x: x == 7),
+    ("ne", "int", "bool", "get {X} != 3", lambda x: x != 3),
+    ("eq-nil", "int", "bool", "get {X} == nil", lambda x: x is None),
+    ("ne-nil", "int", "bool", "get {X} != nil", lambda x: x is not None),
+    ("nil-eq", "int", "bool", "get nil == {X}", lambda x: x is None),
+    ("plain-eq", "int", "bool", "get 3 == {X}", lambda x: x == 3),
+    ("bool-eq", "bool", "bool", "get {X} == true", lambda x: x is True),
+    ("str-eq", "str", "bool", "get {X} == \"ab\"", lambda x: x == "ab"),
+    ("str-ne", "str", "bool", "get {X} != \"zz\"", lambda x: x != "zz"),
+    ("eq-and", "int", "bool", "get {X} == 3 || true", lambda x: True),
+    ("eq-of-optionals", "int", "bool", "get {X} == {X}", lambda x: True),
+    # `get` after another operator: its operand still extends to the end
+    ("inner-add", "int", "int", "1 + get {X} + 2", lambda x: NEVER if x is None else 1 + (x + 2)),
+    ("inner-mul", "int", "int", "1 + get {X} * 2", lambda x: NEVER if x is None else 1 + x * 2),
+    ("inner-mul-add", "int", "int", "2 * get {X} + 1", lambda x: NEVER if x is None else 2 * (x + 1)),
+    ("sum-eq", "int", "bool", "get {X} + 1 == 8", lambda x: NEVER if x is None else x + 1 == 8),
+    ("get-get", "int", "int", "get {X} + get {X}", lambda x: NEVER if x is None else x + x),
+    ("get-or-extends", "int", "int", "get {X} or 3 + 1", lambda x: _d(x, 4)),
+    ("inner-eq", "int", "bool", "true && get {X} == 3", lambda x: x == 3),
+]
+PRESENT = {"int": ("7", 7), "bool": ("true", True), "str": ("\"ab\"", "ab")}
+OPERAND_FORMS = ["variable", "parameter", "element", "field", "call-result"]
+
+
+def _txt(v):
+    return ("true" if v else "false") if isinstance(v, bool) else str(v)
+
+
+def precedence_cases():
+    """-> [(id, source, expected lines, the reading of the expression with every parenthesis written)]"""
+    out = []
+    for fam, table in (("or", OR_PRECEDENCE), ("get", GET_PRECEDENCE)):
+        for eid, T, R, expr, fn in table:
+            lit, pv = PRESENT[T]
+            for form in OPERAND_FORMS:
+                pre = ""
+                if form == "variable":
+                    pre = "on: %s? = nil\nop: %s? = %s\n" % (T, T, lit)
+                    ops = {"nil": "on", "present": "op"}
+                elif form == "element":
+                    pre = "cells: [%s?...] = [nil, %s]\n" % (T, lit)
+                    ops = {"nil": "(cells[0])", "present": "(cells[1])"}
+                elif form == "field":
+                    pre = "class Holder {\n\to: %s?\n\tconstructor(self, o: %s?) {\n\t\tself.o = o\n\t}\n}\nhn = Holder(nil)\nhp = Holder(%s)\n" % (T, T, lit)
+                    ops = {"nil": "(hn.o)", "present": "(hp.o)"}
+                elif form == "call-result":
+                    pre = "mk = fn(k: int) -> %s? {\n\tif k > 0 {\n\t\treturn %s\n\t}\n\treturn nil\n}\n" % (T, lit)
+                    ops = {"nil": "(mk(0))", "present": "(mk(1))"}
+                else:
+                    ops = {"nil": "o", "present": "o"}
+                src = pre + "show = fn(k: %s) -> %s {\n\treturn k\n}\n" % (R, R)
+                exp = []
+                for j, (state, content) in enumerate((("nil", None), ("present", pv))):
+                    want = fn(content)
+                    if want is NEVER:
+                        continue
+                    e = expr.replace("{X}", ops[state])
+                    w = _txt(want)
+                    if form == "parameter":
+                        # the optional is a parameter; the expression is the returned value / the condition inside the function
+                        arg = "nil" if content is None else lit
+                        src += "f%d = fn(o: %s?) -> %s {\n\treturn %s\n}\nprint f%d(%s)\n" % (j, T, R, e, j, arg)
+                        exp.append(w)
+                        if R == "bool":
+                            src += ("g%d = fn(o: %s?) -> str {\n\tif %s {\n\t\treturn \"then\"\n\t}\n\treturn \"else\"\n}\nprint g%d(%s)\n" % (j, T, e, j, arg))
+                            exp.append("then" if want else "else")
+                        continue
+                    src += "print %s\n" % e                                          # statement (print)
+                    src += "r%d = %s\nprint r%d\n" % (j, e, j)                       # right-hand side of an assignment
+                    src += "print show(%s)\n" % e                                    # argument
+                    exp += [w, w, w]
+                    if fam == "get":
+                        src += "%s\nprint \"after\"\n" % e                          # bare statement: the value is dropped
+                        exp.append("after")
+                    if R == "bool":
+                        src += "if %s {\n\tprint \"then\"\n} else {\n\tprint \"else\"\n}\n" % e
+                        exp.append("then" if want else "else")
+                        src += "n%d = 0\nwhile %s {\n\tn%d = n%d + 1\n\tif n%d == 2 {\n\t\tbreak\n\t}\n}\nprint n%d\n" % (j, e, j, j, j, j)
+                        exp.append("2" if want else "0")
+                out.append(("%s/%s/%s" % (fam, eid, form), src, exp, expr))
+    # `v op= x or y`: the right operand of a compound assignment is the whole `x or y`
+    for sym, fn in OR_COMPOUND:
+        for form in ("variable", "element", "field", "call-result"):
+            pre = {"variable": "on: int? = nil\nop: int? = 7\n", "element": "cells: [int?...] = [nil, 7]\n",
+                   "field": "class Holder {\n\to: int?\n\tconstructor(self, o: int?) {\n\t\tself.o = o\n\t}\n}\nhn = Holder(nil)\nhp = Holder(7)\n",
+                   "call-result": "mk = fn(k: int) -> int? {\n\tif k > 0 {\n\t\treturn 7\n\t}\n\treturn nil\n}\n"}[form]
+            ops = {"variable": ("on", "op"), "element": ("(cells[0])", "(cells[1])"), "field": ("(hn.o)", "(hp.o)"), "call-result": ("(mk(0))", "(mk(1))")}[form]
+            src = pre + "v = 100\nv %s %s or 3\nprint v\nw = 100\nw %s %s or 3\nprint w\n" % (sym, ops[0], sym, ops[1])
+            out.append(("or/compound %s/%s" % (sym, form), src, [str(fn(100, 3)), str(fn(100, 7))], "v %s {X} or 3" % sym))
+    return out
+
+
+def run_precedence(ctx, binary, base):
+    cases = precedence_cases()
+
+    def one(src):
+        d = programs.materialize({"files": {"main.ms": src}}, base)
+        r = programs.run_bin(binary, ["run", "main.ms", "-q"], d)
+        import shutil
+        shutil.rmtree(d, ignore_errors=True)
+        return r
+    n = 0
+    for (cid, src, exp, expr), (rc, out, err) in zip(cases, programs.pmap(one, [c[1] for c in cases])):
+        n += 1
+        got = out.split("\n")[:-1]
+        if rc == 0 and got == exp:
+            continue
+        fam = cid.split("/")[0]
+        rep = {"case": cid, "expression": expr, "program": src, "expected": exp, "observed": got, "rc": rc, "stderr": (out + err)[-500:], "how": "mscript run main.ms -q"}
+        if "Did not compile successfully" in err:
+            ctx.report("precedence:%s:rejected" % fam, "a fixed precedence case (%s: `%s`) is rejected by the compiler: %s"
+                       % (cid, expr, [l.strip() for l in (out + err).splitlines() if l.strip().startswith("=")][:1]), rep)
+            continue
+        k = next((i for i, (g, e) in enumerate(zip(got, exp)) if g != e), min(len(got), len(exp)))
+        ctx.report("precedence:%s" % fam,
+                   ("`%s` (%s): output line %d is %r, expected %r (exit %d%s); " % (expr, cid, k + 1, got[k] if k < len(got) else None, exp[k] if k < len(exp) else None, rc,
+                                                                                  (": " + ([l.strip() for l in err.splitlines() if re.match(r"\s+\d+: ", l)] or [""])[-1][:100]) if rc else ""))
+                   + ("`x or y` tests the atom x alone and takes the rest of the expression as fallback" if fam == "or" else "the operand of `get` is everything that follows it"), rep)
+    ctx.cov["precedence_cases"] = {"programs": n, "or_expressions": len(OR_PRECEDENCE) + len(OR_COMPOUND), "get_expressions": len(GET_PRECEDENCE), "operand_forms": OPERAND_FORMS,
+                                   "positions": ["print", "assignment", "argument", "bare statement (get)", "if", "while", "returned value / condition inside a function"]}
+    return n
+
+
 def run_fixed_positions_and_fallbacks(ctx, binary, base):
     gcs = get_position_cases()
 
@@ -399,6 +602,7 @@ def run(ctx):
                    {"case": cid, "program": src, "expected": "rejected at compile time (the target cannot hold the value of e)", "rc": rc, "stdout": out[-300:], "stderr": err[-500:],
                     "how": "mscript run main.ms -q"})
     n_fx = run_fixed_positions_and_fallbacks(ctx, binary, base)
+    n_fx += run_precedence(ctx, binary, base)
     ctx.cov["present_optional_equality_cases"] = {"programs": n_eq, "types": [t[0] for t in EQ_TYPES], "positions": EQ_POSITIONS}
     ctx.cov["unwrap_into_non_optional_target_cases"] = n_ut
     nils = sum(1 for r in results if r["status"] == "ran" and r["t3"][0] == "ok" and "unwrap of" in r["real"]["stderr"])
@@ -408,7 +612,9 @@ def run(ctx):
                        "side-effecting and nested fallback) / get in statement, if and while position with random nil/present; `?=` in if / statement / "
                        "while position against a Python oracle; present optional == / != plain value for every scalar kind and four list types x "
                        "{variable, function result, parameter, class field, list element} (exhaustive); `?=` into a non-optional variable with e nil "
-                       "(5 types x variable/result/list element/element of a `map` result x statement/if/while/function) must be rejected; non-trivial = distinct program that ran")
+                       "(5 types x variable/result/list element/element of a `map` result x statement/if/while/function) must be rejected; `or` and `get` written without parentheses next to "
+                       "every class of binary operator (precedence_cases: nil and present, 5 operand forms, print / assignment / argument / statement / if / while / return); "
+                       "non-trivial = distinct program that ran")
     ctx.cov["statistics"] = st
     ctx.cov["programs_stopped_by_get_nil_with_matching_span"] = nils
     ctx.cov["unwrap_into_cases"] = n_u
@@ -416,5 +622,5 @@ def run(ctx):
     ctx.sample({"program": projs[0]["files"]["main.ms"][:900]})
     ctx.cov["trusted_base"] = ["Coq 8.16.1 kernel; no axioms", "extraction + drivers", "hooks H1/H3", "Python oracle for ?="]
     ctx.assumptions = ["Lang/Eval.v is the specification for ==nil / or / get", "optionals of list and class type are outside the Coq models"]
-    spec_failed = any(v[0].startswith(("semantics:", "unwrap-into", "present-optional-eq-plain", "optional-in-container", "get-nil-position", "or-fallback-with-nested-or")) for v in ctx.viol)
+    spec_failed = any(v[0].startswith(("semantics:", "unwrap-into", "present-optional-eq-plain", "optional-in-container", "get-nil-position", "or-fallback-with-nested-or", "precedence:")) for v in ctx.viol)
     core.proof_or_search(ctx, ok, ["C12 obligations"], spec_failed)
